@@ -30,7 +30,7 @@ THRESHOLDS = {"quick": {**{f"c05:{f}:{c}": 30 for f in FORMATS for c in ("memory
                         "c05:collection-empty-member": 10, "c05:no-meta-at-all": 30, "c05:precollected": 30, "c05:with-meta": 100,
                         "c05:len>=100": 8, "c05:one-cell-solution": 30, "c05:two-cell-solution": 30, "c05:meta-keys-compared": 100,
                         "c05:auto-picked-minimal": 20, "c05:auto-picked-full": 20,
-                        "c05:solution>127-cells": 20, "c05:solution>255-cells": 3, "c05:len>127": 8, "c05:overwrite-same-config": 40, "c05:reserialize-after-in-place-edit": 120, "c05:float-metadata-key-many-digits": 60, "c05:collection-members-with-equal-configs": 20, "c05:filter-history": 100, "c05:filter-history-repeated-entry": 30, "c05:total-solution-cells>32767": 8}}
+                        "c05:solution>127-cells": 20, "c05:solution>255-cells": 3, "c05:len>127": 8, "c05:overwrite-same-config": 40, "c05:reserialize-after-in-place-edit": 120, "c05:float-metadata-key-many-digits": 60, "c05:collection-members-with-equal-configs": 20, "c05:filter-history": 100, "c05:filter-history-repeated-entry": 30, "c05:total-solution-cells>32767": 8, "c05:generator-kwarg:list": 20, "c05:generator-kwarg:tuple": 3, "c05:hand-built-from-callers-config": 5, "c05:config-compared-with-library-eq": 1000}}
 THRESHOLDS["thorough"] = dict(THRESHOLDS["quick"])
 ANCHORS = ["maze_dataset.dataset.maze_dataset:MazeDataset.serialize", "maze_dataset.dataset.maze_dataset:MazeDataset.load",
            "maze_dataset.dataset.maze_dataset:MazeDataset._load_full", "maze_dataset.dataset.maze_dataset:MazeDataset._load_minimal",
@@ -75,7 +75,14 @@ def meta_norm(meta):
     return {str(k): {str(kk): (int(vv) if isinstance(vv, (int, np.integer)) else vv) for kk, vv in v.items()} for k, v in meta.items()}
 
 
-def compare(ctx, snap, ds_after_cfg, loaded, mech, case, expect_meta_from=None):
+def _safe_diff(a, b):
+    try:
+        return a.diff(b)
+    except Exception as e:  # noqa: BLE001
+        return f"(diff raised {type(e).__name__})"
+
+
+def compare(ctx, snap, ds_after_cfg, loaded, mech, case, expect_meta_from=None, ds_cfg=None):
     from maze_dataset import MazeDataset
 
     if not ctx.check(isinstance(loaded, MazeDataset), f"{mech}/not-a-dataset", f"{type(loaded).__name__}", case):
@@ -96,6 +103,22 @@ def compare(ctx, snap, ds_after_cfg, loaded, mech, case, expect_meta_from=None):
     got = cfg_fields(loaded.cfg)
     ctx.check(got == ds_after_cfg, f"{mech}/config-differs",
               lambda: "fields: " + ", ".join(f"{k}: loaded {got[k]!r} vs dataset {ds_after_cfg[k]!r}" for k in got if got[k] != ds_after_cfg[k])[:800], case)
+    # ... and equal under the library's own ==, with the generator kwargs compared as the objects they are (a list is not a tuple)
+    if ds_cfg is not None and got == ds_after_cfg:
+        ctx.tally("c05:config-compared-with-library-eq")
+        kw_l, kw_d = loaded.cfg.maze_ctor_kwargs, ds_cfg.maze_ctor_kwargs
+        if repr(kw_l) != repr(kw_d) and isinstance(kw_l, dict) and isinstance(kw_d, dict) and set(kw_l) == set(kw_d):
+            kinds = sorted({f"{type(kw_d[k]).__name__}-read-back-as-{type(kw_l[k]).__name__}" for k in kw_d if type(kw_d[k]) is not type(kw_l[k])}) or ["values-differ"]
+            for kd in kinds:
+                ctx.violation(f"{mech}/config-not-equal/maze_ctor_kwargs/{kd}", f"dataset holds {kw_d!r}, loaded config holds {kw_l!r}; loaded.cfg == ds.cfg is {loaded.cfg == ds_cfg}", case)
+        else:
+            try:
+                eq = bool(loaded.cfg == ds_cfg)
+            except Exception as e:  # noqa: BLE001
+                eq = None
+                ctx.violation(f"{mech}/config-eq-raises/{type(e).__name__}", repr(e)[:300], case)
+            if eq is not None:
+                ctx.check(eq, f"{mech}/config-not-equal", lambda: f"loaded.cfg != ds.cfg although every compared field agrees up to list/tuple: diff {_safe_diff(loaded.cfg, ds_cfg)}"[:800], case)
     before = dict(snap["cfg"]); after = dict(ds_after_cfg)
     fb, fa = before.pop("applied_filters"), after.pop("applied_filters")
     drift_ok = before == after and (fa == fb or (fa[:-1] == fb and fa[-1]["name"] == "collect_generation_meta"))
@@ -147,9 +170,21 @@ def build_dataset(ctx, rng, j):
                 tags.append("float-metadata-key-many-digits")
             if gen == "gen_wilson" and n >= 100:
                 gen = "gen_dfs"
+            rewrap = False
+            if j % 5 == 2 and gen != "gen_wilson":
+                # a sequence-valued generator argument, as a list (what a json / yaml experiment file gives) or as a tuple (what the notebooks show)
+                kw = dict(kw)
+                sc = [int(rng.integers(g)), int(rng.integers(g))]
+                kw["start_coord"] = sc if (j // 5) % 2 == 0 else tuple(sc)
+                tags.append("generator-kwarg:" + type(kw["start_coord"]).__name__)
+                rewrap = (j // 10) % 3 != 2
             cfg = MazeDatasetConfig(name=f"c05-{j}", grid_n=g, n_mazes=n, maze_ctor=GENERATORS_MAP[gen], maze_ctor_kwargs=kw,
                                     seed=int(rng.integers(1 << 30)))
             ds = MazeDataset.generate(cfg)
+            if rewrap:
+                # put together by hand from the caller's own config object (generate() works on a copy of it)
+                ds = MazeDataset(cfg, ds.mazes)
+                tags.append("hand-built-from-callers-config")
             tags.append("with-meta")
             if j % 3 == 1:
                 # a recorded filter history, incl. the same filter with the same arguments twice in a row and A,B,A patterns
@@ -165,10 +200,10 @@ def build_dataset(ctx, rng, j):
                     tags.append("filter-history-repeated-entry")
             if kind == 1:
                 ds = ds.filter_by.collect_generation_meta()
-                tags = ["precollected"] + [t for t in tags if t.startswith("filter-history")]
+                tags = ["precollected"] + [t for t in tags if t.startswith(("filter-history", "generator-kwarg", "hand-built"))]
             elif kind == 2 and rng.random() < 0.5:
                 ds = ds.filter_by.strip_generation_meta()
-                tags = ["no-meta-at-all"] + [t for t in tags if t.startswith("filter-history")]
+                tags = ["no-meta-at-all"] + [t for t in tags if t.startswith(("filter-history", "generator-kwarg", "hand-built"))]
         else:
             # harness-built mazes: ragged solutions incl. one-cell, two-cell and maximal paths, no generation metadata
             mazes = []
@@ -249,7 +284,7 @@ def roundtrips(ctx, make_ds, j, rng, tags, n):
             if snap["meta"] is not None:
                 # pre-existing collected metadata must be unchanged by the call itself
                 ctx.check(meta_norm(ds.generation_metadata_collected) == snap["meta"], f"{mech}/serialization-changed-collected-metadata", "", case)
-            compare(ctx, snap, cfg_fields(ds.cfg), loaded, mech, case, expect_meta_from=exp_meta)
+            compare(ctx, snap, cfg_fields(ds.cfg), loaded, mech, case, expect_meta_from=exp_meta, ds_cfg=ds.cfg)
             lens = {len(m["sol"]) for m in snap["mazes"]}
             if n >= 2 and len(lens) >= 2:
                 ctx.nontrivial(j, fmt, chan, thr)
@@ -317,7 +352,7 @@ def roundtrips(ctx, make_ds, j, rng, tags, n):
                 os.unlink(path)
             ctx.ev(); ctx.tally(f"c05:{fmt}:file")
             exp_meta = meta_norm(ds.generation_metadata_collected) if ds.generation_metadata_collected is not None else snap["meta"]
-            compare(ctx, snap, cfg_fields(ds.cfg), loaded, mech, case, expect_meta_from=exp_meta)
+            compare(ctx, snap, cfg_fields(ds.cfg), loaded, mech, case, expect_meta_from=exp_meta, ds_cfg=ds.cfg)
         except Exception as e:  # noqa: BLE001
             import traceback
             sub = "no-meta-at-all" if "no-meta-at-all" in tags else ("with-meta" if "with-meta" in tags else "precollected")
@@ -378,7 +413,7 @@ def collections(ctx, j, rng):
                   f"{mech}/collection-config-differs", "", case)
         for t, (sn, m, lm) in enumerate(zip(snaps, members, loaded.maze_datasets)):
             exp_meta = meta_norm(m.generation_metadata_collected) if m.generation_metadata_collected is not None else sn["meta"]
-            compare(ctx, sn, cfg_fields(m.cfg), lm, f"{mech}/member", dict(case, member=t), expect_meta_from=exp_meta)
+            compare(ctx, sn, cfg_fields(m.cfg), lm, f"{mech}/member", dict(case, member=t), expect_meta_from=exp_meta, ds_cfg=m.cfg)
         if sum(1 for L in lens if L > 0) >= 2:
             ctx.nontrivial("col", tuple(lens), chan, thr, j)
     except Exception as e:  # noqa: BLE001
